@@ -108,18 +108,17 @@ theorem DataInfo.from_to (di : DataInfo) : DataInfo.fromDict di.toDict = some { 
   simp [DataInfo.fromDict, DataInfo.toDict, getArr, kw, Json.get?, List.lookup, Json.asArr?,
     allSome_map' ColumnInfo.toDict ColumnInfo.fromDict cols ColumnInfo.from_to]
 
-theorem derivs_from_to (ds : List (Deriv E)) (hr : ∀ d ∈ ds, d.isRaw = true) :
-    allSome (Deriv.ofJson (E := E)) (ds.map (fun d => Json.str (d.str c))) = some ds := by
+theorem derivs_from_to (ds : List (List String)) : derivsOfJson (derivsToJson ds) = some ds := by
+  simp only [derivsOfJson, derivsToJson]
   apply allSome_map
-  intro d hd
-  cases d with
-  | raw s => simp [Deriv.str, Deriv.ofJson]
-  | tup es => have := hr _ hd; simp [Deriv.isRaw] at this
+  intro d _
+  simp only [derivOfJson]
+  exact allSome_map' Json.str Json.asStr? d (fun _ => rfl)
 
-theorem EstStep.from_to (s : EstStep E) (hr : ∀ d ∈ s.derivatives, d.isRaw = true) :
-    EstStep.fromDict (s.toDict c) = some s := by
+omit c in
+theorem EstStep.from_to (s : EstStep E) : EstStep.fromDict (s.toDict) = some s := by
   obtain ⟨a1, a2, a3, a4, a5, a6, a7, a8, a9, a10, ds, a12, a13, a14, a15, a16, a17, a18⟩ := s
-  have hd := derivs_from_to (c := c) ds hr
+  have hd := derivs_from_to ds
   simp [EstStep.fromDict, EstStep.toDict, onlyKeys, estKeys, Json.keys, kw, Json.get?, List.lookup, hd]
 
 end
